@@ -17,6 +17,11 @@ REPO = os.environ.get("VERIF_REPO", "/repo")
 SPEC = os.path.join(VERIF, "spec")
 JAR = "/opt/veriftools/tla/tla2tools.jar:/opt/veriftools/tla/CommunityModules-deps.jar"
 NCPU = os.cpu_count() or 4
+# own QA only: VERIF_REPO + VERIF_SCRATCH run the checks against a scratch copy of the repository without touching
+# /verif/build, /verif/evidence or /verif/replay (registered commands never set them)
+SCRATCH = os.environ.get("VERIF_SCRATCH")
+BUILD_ROOT = os.path.join(SCRATCH, "build") if SCRATCH else os.path.join(VERIF, "build")
+OUT_ROOT = SCRATCH if SCRATCH else VERIF
 
 
 class Infra(Exception):
@@ -31,7 +36,7 @@ class Ctx:
     def __init__(self, prop, tier, seed):
         self.prop, self.tier, self.seed = prop, tier, seed
         self.t0 = time.time()
-        self.dir = os.path.join(VERIF, "build", prop)
+        self.dir = os.path.join(BUILD_ROOT, prop)
         shutil.rmtree(self.dir, ignore_errors=True)
         os.makedirs(self.dir)
         self.rng = random.Random(seed)
@@ -58,9 +63,19 @@ def go_env():
 
 
 def build_harness(ctx, race=False, checkptr=False):
-    """Rebuild the harness against /repo's current working tree, hooks on."""
-    src = os.path.join(VERIF, "harness")
-    shutil.copyfile(os.path.join(REPO, "go.sum"), os.path.join(src, "go.sum"))
+    """Rebuild the harness against the repository's current working tree (REPO, default /repo), hooks on.
+    The sources are copied into the scratch directory and the module's replace directive is pointed at REPO,
+    so nothing under /verif/harness is written and a scratch copy of the repository can be checked as well."""
+    src = os.path.join(ctx.dir, "harness-src")
+    if not os.path.isdir(src):
+        os.makedirs(src)
+        for f in os.listdir(os.path.join(VERIF, "harness")):
+            if f.endswith(".go"):
+                shutil.copyfile(os.path.join(VERIF, "harness", f), os.path.join(src, f))
+        with open(os.path.join(src, "go.mod"), "w") as f:
+            f.write("module verif/harness\n\ngo 1.21\n\nrequire github.com/elastic/go-structform v0.0.0\n\n"
+                    "replace github.com/elastic/go-structform => %s\n" % REPO)
+        shutil.copyfile(os.path.join(REPO, "go.sum"), os.path.join(src, "go.sum"))
     out = os.path.join(ctx.dir, "sfverif" + ("-race" if race else "") + ("-cp" if checkptr else ""))
     cmd = ["go", "build", "-tags", "verif", "-o", out]
     if race:
